@@ -5,6 +5,11 @@ import Flowjaxv.Driver.Misc
 import Flowjaxv.Driver.ArrTree
 import Flowjaxv.Driver.AdDrv
 import Flowjaxv.Driver.PyTree
+import Flowjaxv.Driver.Masks
+import Flowjaxv.Driver.Params
+import Flowjaxv.Driver.ArgCheck
+import Flowjaxv.Driver.Families
+import Flowjaxv.Driver.Bisection
 /-!
 Model driver: `lake env lean --run Driver.lean < ops.txt`.  One op per line in, one line out
 (`ERR <msg>` when the model rejects the op).
@@ -25,6 +30,29 @@ def dispatch (line : String) : String :=
       | "atree" => atree args
       | "ad" => ad args
       | "pytree" => pytree args
+      | "jmod" => jmodOp args
+      | "rankmask" => rankmask args
+      | "blockdiag" => blockdiag args
+      | "blocktril" => blocktril args
+      | "mafranks" => mafranks args
+      | "mafmasks" => mafmasks args
+      | "mafdeps" => mafdeps args
+      | "bnafdeps" => bnafdeps args
+      | "mafnet" => mafnet args
+      | "coupling" => coupling args
+      | "bnaf" => bnaf args
+      | "par" => par args
+      | "ac" => ac args
+      | "family" => family args
+      | "familyv" => familyv args
+      | "familys" => familys args
+      | "accessor" => accessor args
+      | "mixture" => mixture args
+      | "mixweights" => mixweights args
+      | "bis" => bis args
+      | "adapt" => adapt args
+      | "ar" => ar args
+      | "archeck" => archeck args
       | "ctor" => ctor args
       | "permute" => permute args
       | "permvalid" => permvalid args
